@@ -493,7 +493,7 @@ func Populate(c *abci.Chain, f Features, r *hx.Rng) *World {
 		w.tx("basket mint", 1, &baskettypes.MsgBasketTokenMint{Sender: A(1).String(), BasketId: 1, Deposit: sdk.NewCoins(coin("ubtc", 100000), coin("xeth", 100000))})
 		w.tx("basket mint 2", 2, &baskettypes.MsgBasketTokenMint{Sender: A(2).String(), BasketId: 1, Deposit: sdk.NewCoins(coin("ubtc", 50000), coin("xeth", 70000))})
 		w.tx("basket burn", 1, &baskettypes.MsgBasketTokenBurn{Sender: A(1).String(), BasketId: 1, BurnAmount: coin("b1/b1", 1000)})
-		w.tx("basket swap", 2, &baskettypes.MsgBasketTokenSwap{Sender: A(2).String(), BasketId: 1, Pairs: []baskettypes.SwapPair{{InAmount: coin("ubtc", 1000), OutToken: "xeth"}}})
+		w.tx("basket swap", 2, &baskettypes.MsgBasketTokenSwap{Sender: A(2).String(), BasketId: 1, Pairs: []baskettypes.SwapPair{{InAmount: coin("ubtc", 1200), OutToken: "xeth"}}})
 	}
 	if f.Spending {
 		sms := spendingkeeper.NewMsgServerImpl(app.SpendingKeeper, app.CustomGovKeeper, app.BankKeeper)
@@ -586,7 +586,7 @@ func Populate(c *abci.Chain, f Features, r *hx.Rng) *World {
 	if f.Basket {
 		w.tx("basket mint (later block)", 2, &baskettypes.MsgBasketTokenMint{Sender: A(2).String(), BasketId: 1, Deposit: sdk.NewCoins(coin("ubtc", 700), coin("xeth", 900))})
 		w.tx("basket burn (later block)", 1, &baskettypes.MsgBasketTokenBurn{Sender: A(1).String(), BasketId: 1, BurnAmount: coin("b1/b1", 500)})
-		w.tx("basket swap (later block)", 2, &baskettypes.MsgBasketTokenSwap{Sender: A(2).String(), BasketId: 1, Pairs: []baskettypes.SwapPair{{InAmount: coin("ubtc", 500), OutToken: "xeth"}}})
+		w.tx("basket swap (later block)", 2, &baskettypes.MsgBasketTokenSwap{Sender: A(2).String(), BasketId: 1, Pairs: []baskettypes.SwapPair{{InAmount: coin("ubtc", 600), OutToken: "xeth"}}})
 	}
 	if f.ProposalVoting {
 		pv := gtx("token black/white (in voting)", tokenstypes.NewTokensWhiteBlackChangeProposal(true, true, []string{"xeth"}), 0)
